@@ -6,7 +6,7 @@ import re
 
 from .base import Monitor
 from .motion import mk
-from ..harness import Core, FakeComm, normalise, DEFAULT_EXT
+from ..harness import Core, FakeComm, normalise, DEFAULT_EXT, hook_gcode
 from ..gen import gen_program, gen_regions, wild_command
 from ..refprinter import tokenize
 
@@ -113,6 +113,8 @@ class C20(Monitor):
                                       "M117 %d \\; ; real comment"]) % rnd.randint(0, 99)
                 elif rnd.random() < 0.04 and " " in cmd:
                     cmd = cmd.replace(" ", rnd.choice(["\t", " \t", "  "]))
+                elif rnd.random() < 0.05:
+                    cmd = re.sub(r"^([GM])(\d+)", lambda m: m.group(1) + rnd.choice(["0", "0", "00"]) + m.group(2), cmd)
                 s = cmd
                 if rnd.random() < 0.15:
                     n += 1
@@ -171,8 +173,8 @@ class C20(Monitor):
             if kind in ("blank", "other"):
                 want = ("same",)
             elif kind == "gcode":
-                code, sub, _ = tokenize(payload)
-                res = twin.handleGcode(payload, "T" if code[0] == "T" else code, sub)
+                gc, sub = hook_gcode(payload)
+                res = twin.handleGcode(payload, gc, sub)
                 want = ("same",) if res is None else ("cmds", normalise(res, payload))
             else:
                 comm.take()
